@@ -1,6 +1,7 @@
 //! The `World`: a cw-multi-test App with the whole protocol deployed, the address-id map,
 //! typed query helpers and the `OBS` / `QRY` printers.
 use super::cfg::*;
+use crate::rng::Rng;
 use cosmwasm_std::{
     Addr, Api, BankMsg, BankQuery, Binary, BlockInfo, Coin, CosmosMsg, CustomQuery, Deps, DepsMut, Empty, Env,
     MessageInfo, Querier, Reply, Response, Storage, Timestamp, Uint128,
@@ -259,6 +260,9 @@ pub struct World {
     pub feed: Addr,
     pub token: Option<Addr>,
     pub vamms: Vec<Addr>,
+    /// code ids kept for the instantiate probes
+    pub engine_code: u64,
+    pub cw20_code: Option<u64>,
 }
 
 fn ex<T: Serialize + std::fmt::Debug>(app: &mut WApp, sender: &str, contract: &Addr, msg: &T) -> Result<AppResponse, String> {
@@ -320,10 +324,12 @@ impl World {
             .map_err(|e| format!("{}", e.root_cause()))?;
         reg(FEEPOOL, &feepool);
 
+        let mut cw20_code: Option<u64> = None;
         let token = if native {
             None
         } else {
             let code = app.store_code(wrap(c_cw20(), &ctl));
+            cw20_code = Some(code);
             let t = app
                 .instantiate_contract(
                     code,
@@ -516,7 +522,101 @@ impl World {
             append(&mut app)?;
         }
 
-        Ok(World { app, ctl, cfg: cfg.clone(), ids, names, engine, ifund: ifund_addr, feepool, feed: feed_addr, token, vamms })
+        Ok(World { app, ctl, cfg: cfg.clone(), ids, names, engine, ifund: ifund_addr, feepool, feed: feed_addr, token, vamms, engine_code, cw20_code })
+    }
+
+    // ---------------------------------------------------------------- instantiate probes
+    /// Instantiates one more margin engine on this chain with boundary-biased parameters and reports whether the
+    /// contract accepted them and what it stored (`EINST` line).  The collateral is this deployment's own, or (cw20
+    /// deployments) a fresh token with an unusual number of decimals.  Run after the history's last transaction.
+    pub fn probe_engine_instantiate(&mut self, r: &mut Rng, h: u64, j: u64) -> String {
+        let owner = Addr::unchecked("owner");
+        let mut dec: u32 = self.cfg.dp;
+        let mut coll = match &self.token {
+            Some(t) => t.to_string(),
+            None => "uwasm".to_string(),
+        };
+        if let (Some(code), true) = (self.cw20_code, r.chance(1, 2)) {
+            dec = *r.pick(&[0u32, 5, 6, 7, 9, 18, 38, 39]);
+            let fresh = catch_unwind(AssertUnwindSafe(|| {
+                self.app.instantiate_contract(
+                    code,
+                    owner.clone(),
+                    &cw20_base::msg::InstantiateMsg {
+                        name: "PROBE".to_string(),
+                        symbol: "PRB".to_string(),
+                        decimals: dec as u8,
+                        initial_balances: vec![],
+                        mint: None,
+                        marketing: None,
+                    },
+                    &[],
+                    "cw20-probe",
+                    None,
+                )
+            }));
+            match fresh {
+                Ok(Ok(a)) => coll = a.to_string(),
+                _ => dec = self.cfg.dp,
+            }
+        }
+        let d: u128 = if dec <= 38 { 10u128.pow(dec) } else { u128::MAX };
+        let ratio = |r: &mut Rng| -> u128 {
+            match r.below(9) {
+                0 => d,
+                1 => d.saturating_add(1),
+                2 => 0,
+                3 => d / 20,
+                4 => d / 10,
+                5 => d / 40,
+                6 => d / 2,
+                7 => d.saturating_sub(1),
+                _ => r.below128(d / 4 + 1),
+            }
+        };
+        let imr = ratio(r);
+        let mmr = match r.below(4) {
+            0 => imr,
+            1 => imr.saturating_add(1),
+            2 => imr.saturating_sub(1),
+            _ => ratio(r),
+        };
+        let lf = ratio(r);
+        let msg = eng::InstantiateMsg {
+            pauser: "pauser".to_string(),
+            insurance_fund: self.ifund.to_string(),
+            fee_pool: self.feepool.to_string(),
+            eligible_collateral: coll,
+            initial_margin_ratio: Uint128::new(imr),
+            maintenance_margin_ratio: Uint128::new(mmr),
+            liquidation_fee: Uint128::new(lf),
+        };
+        let code = self.engine_code;
+        let res = catch_unwind(AssertUnwindSafe(|| self.app.instantiate_contract(code, owner.clone(), &msg, &[], "engine-probe", None)));
+        let head = format!("EINST h={} k={} native={} dec={} imr={} mmr={} lf={}", h, j, self.token.is_none() as u8, dec, imr, mmr, lf);
+        match res {
+            Ok(Ok(addr)) => {
+                let c: Option<eng::ConfigResponse> = self.q(&addr, &eng::QueryMsg::Config {});
+                let s: Option<eng::StateResponse> = self.q(&addr, &eng::QueryMsg::State {});
+                match (c, s) {
+                    (Some(c), Some(s)) => format!(
+                        "{} ok=1 c.dec={} c.imr={} c.mmr={} c.plr={} c.lf={} c.owner={} s.oi={} s.prepaid={} err=-",
+                        head,
+                        c.decimals.u128(),
+                        c.initial_margin_ratio.u128(),
+                        c.maintenance_margin_ratio.u128(),
+                        c.partial_liquidation_ratio.u128(),
+                        c.liquidation_fee.u128(),
+                        self.id(c.owner.as_str()),
+                        s.open_interest_notional.u128(),
+                        s.bad_debt.u128()
+                    ),
+                    _ => format!("{} ok=1 c.dec=0 c.imr=0 c.mmr=0 c.plr=0 c.lf=0 c.owner=0 s.oi=0 s.prepaid=0 err=config-unreadable", head),
+                }
+            }
+            Ok(Err(e)) => format!("{} ok=0 err={}", head, super::tx::err_tag(&format!("{}", e.root_cause()))),
+            Err(_) => format!("{} ok=0 err=panic", head),
+        }
     }
 
     // ---------------------------------------------------------------- ids
@@ -715,6 +815,37 @@ impl World {
                     .join(";"),
             );
         }
+        // the engine's own answer to `Position{vamm, trader}` for every deployed market and every trading account
+        // (what a user sees; `pos=` above is what the storage holds): `v:t:` + the ten fields of the answered record
+        let mut qp: Vec<String> = vec![];
+        for (i, va) in self.vamms.iter().enumerate() {
+            let v = VAMM0 + i as u64;
+            for t in ALLOW_IDS.iter() {
+                let ta = self.addr(*t);
+                if let Some(p) = self.q::<eng::Position, _>(&self.engine, &eng::QueryMsg::Position { vamm: va.to_string(), trader: ta }) {
+                    let sz = p.size.to_string();
+                    let ck = p.last_updated_premium_fraction.to_string();
+                    let (sneg, smag) = sign_mag(&sz);
+                    let (cneg, cmag) = sign_mag(&ck);
+                    qp.push(format!(
+                        "{}:{}:{}:{}:{}:{}:{}:{}:{}:{}:{}:{}",
+                        v,
+                        t,
+                        self.id(p.vamm.as_str()),
+                        self.id(p.trader.as_str()),
+                        if p.direction == vamm::Direction::AddToAmm { 0 } else { 1 },
+                        sneg,
+                        smag,
+                        p.margin.u128(),
+                        p.notional.u128(),
+                        cneg,
+                        cmag,
+                        p.block_number
+                    ));
+                }
+            }
+        }
+        s.push_str(&format!(" qp={}", if qp.is_empty() { "none".to_string() } else { qp.join(";") }));
         // vamm-map
         let vm_prefix = to_length_prefixed(b"vamm-map");
         let mut vms: Vec<(u64, String)> = vec![];
